@@ -33,6 +33,7 @@ type loopStore struct {
 	failLists  int
 	stores     int
 	lists      int
+	dead       bool // the instance "crashed": nothing it still attempts reaches the bucket
 }
 
 var errInjected = errors.New("injected storage failure")
@@ -40,6 +41,10 @@ var errD13 = errors.New("D13")
 
 func (f *loopStore) Store(ctx context.Context, name string, data []byte) error {
 	f.mu.Lock()
+	if f.dead {
+		f.mu.Unlock()
+		return context.Canceled
+	}
 	if f.failStores > 0 {
 		f.failStores--
 		f.mu.Unlock()
@@ -108,6 +113,9 @@ func fleetReset() {
 
 func stopLoop(l *loopInst) {
 	if l.started && !l.exited {
+		l.fs.mu.Lock()
+		l.fs.dead = true
+		l.fs.mu.Unlock()
 		l.cancel()
 		// let it run to its exit, releasing it from wherever it is blocked
 		deadline := time.After(3 * time.Second)
@@ -270,8 +278,10 @@ func init() {
 		t := trackOf(a[0])
 		t.startupStore = true
 		t.lsEmpty = false
+		// writes not captured before the crash are stamped "in the past" by the start-up capture
+		// (documented restart behaviour): the steady-state oracles start afresh
+		t.writes = map[string]*trackedWrite{}
 		if a[1] == "1" {
-			t.writes = map[string]*trackedWrite{}
 			t.appSinceStore = false
 		}
 		return "ok"
